@@ -54,7 +54,73 @@ func InScopePath(path string) bool {
 }
 
 // Load type-checks ./... of repo and builds SSA.  Any error aborts: no verdict is possible.
-func Load(repo, tier string) (*Ctx, error) {
+func Load(repo, tier string) (*Ctx, error) { return LoadVariant(repo, "", tier) }
+
+// variantOverlay compares a scratch copy with the repository and returns the Go files that differ or were added, keyed
+// by their path in the repository; ok=false when the variant cannot be expressed that way (a file was removed, the
+// module files differ).
+func variantOverlay(repo, variant string) (overlay map[string][]byte, ok bool) {
+	overlay = map[string][]byte{}
+	ok = true
+	isSrc := func(p string) bool { return strings.HasSuffix(p, ".go") && !strings.HasSuffix(p, "_test.go") }
+	filepath.WalkDir(variant, func(p string, d os.DirEntry, err error) error {
+		if err != nil {
+			ok = false
+			return nil
+		}
+		rel, _ := filepath.Rel(variant, p)
+		if d.IsDir() {
+			if d.Name() == ".git" {
+				return filepath.SkipDir
+			}
+			return nil
+		}
+		base := filepath.Base(p)
+		if !isSrc(p) && base != "go.mod" && base != "go.sum" {
+			return nil
+		}
+		nb, err1 := os.ReadFile(p)
+		ob, err2 := os.ReadFile(filepath.Join(repo, rel))
+		if err1 != nil {
+			ok = false
+			return nil
+		}
+		if err2 == nil && string(nb) == string(ob) {
+			return nil
+		}
+		if !isSrc(p) {
+			ok = false // module files changed
+			return nil
+		}
+		overlay[filepath.Join(repo, rel)] = nb
+		return nil
+	})
+	filepath.WalkDir(repo, func(p string, d os.DirEntry, err error) error {
+		if err != nil {
+			return nil
+		}
+		if d.IsDir() {
+			if d.Name() == ".git" {
+				return filepath.SkipDir
+			}
+			return nil
+		}
+		if isSrc(p) {
+			rel, _ := filepath.Rel(repo, p)
+			if _, err := os.Stat(filepath.Join(variant, rel)); err != nil {
+				ok = false // removed in the variant
+			}
+		}
+		return nil
+	})
+	return
+}
+
+// LoadVariant loads the repository, or - when variant names a scratch copy of it with some files changed - the
+// repository with those files overlaid.  The overlay keeps the build's cache keys those of the repository itself (only
+// the changed packages and their dependents are compiled anew), so analysing many variants does not fill the build
+// cache with one copy of every package per scratch directory.
+func LoadVariant(repo, variant, tier string) (*Ctx, error) {
 	if os.Getenv("GOWORK") != "" && os.Getenv("GOWORK") != "off" {
 		return nil, fmt.Errorf("GOWORK is set")
 	}
@@ -62,12 +128,24 @@ func Load(repo, tier string) (*Ctx, error) {
 	if err != nil {
 		return nil, err
 	}
+	var overlay map[string][]byte
+	if variant != "" {
+		v, err := filepath.Abs(variant)
+		if err != nil {
+			return nil, err
+		}
+		if ov, ok := variantOverlay(abs, v); ok {
+			overlay = ov
+		} else {
+			abs = v // not expressible as an overlay: analyse the scratch copy itself
+		}
+	}
 	mode := packages.LoadSyntax
 	if os.Getenv("IOCVET_ALLSYNTAX") == "1" {
 		mode = packages.LoadAllSyntax
 	}
 	fset := token.NewFileSet()
-	cfg := &packages.Config{Mode: mode, Dir: abs, Fset: fset, Tests: false,
+	cfg := &packages.Config{Mode: mode, Dir: abs, Fset: fset, Tests: false, Overlay: overlay,
 		Env: append(os.Environ(), "GOFLAGS=-mod=mod", "GOPROXY=off", "GOSUMDB=off", "GOWORK=off", "GOTOOLCHAIN=local")}
 	pkgs, err := packages.Load(cfg, "./...")
 	if err != nil {
@@ -91,7 +169,7 @@ func Load(repo, tier string) (*Ctx, error) {
 	for _, p := range pkgs {
 		c.ByPath[p.PkgPath] = p
 	}
-	prog, _ := ssautil.AllPackages(pkgs, ssa.InstantiateGenerics)
+	prog, _ := ssautil.Packages(pkgs, ssa.InstantiateGenerics) // bodies for the repository's own packages only (with an overlay the loader parses the dependencies too)
 	prog.Build()
 	c.Prog = prog
 	for _, p := range prog.AllPackages() {
